@@ -166,14 +166,15 @@ def r19_3(run):
     run.analysed(f)
     w = run.where(f, f.node)
     outs = {}
+    pname = f.params()[1] if len(f.params()) > 1 else "vdot_m3_per_s"      # the volume-flow parameter, whatever it is called
     for it in (True, False):
-        k = _eval_method(ix, ci, "get_pressure", {"iterable:vdot_m3_per_s": it})
+        k = _eval_method(ix, ci, "get_pressure", {"iterable:" + pname: it})
         outs[it] = tonum(k.outputs[0])
     d, rows, _ = compare(outs[True], outs[False])
     run.ob("get_pressure|array==scalar", not d,
            "array and scalar queries of a pump type are the same function of the volume flow (%d guard rows)" % rows, w,
            detail=str(d[0])[:400] if d else None)
-    v = Poly.sym("vdot_m3_per_s")
+    v = Poly.sym(pname)
     n_ = [a for gd, p in outs[False].cases for a in p.atoms() if a[0] == "app" and a[1] == "max"]
     curve = None
     for gd, p in outs[False].cases:
@@ -189,7 +190,7 @@ def r19_3(run):
            "reverse flow (v < 0) gives zero lift", w)
     # the polynomial: SUM(reg_par * (3600 v)^(n-1)) with n = len(reg_par) .. 1
     txt = str(outs[False])
-    run.ob("get_pressure|regression-polynomial", "SUM(" in txt and "3600*vdot_m3_per_s" in txt and "self.reg_par" in txt,
+    run.ob("get_pressure|regression-polynomial", "SUM(" in txt and ("3600*" + pname) in txt and "self.reg_par" in txt,
            "the lift is SUM(reg_par * (3600 v)^(n-1))", w, detail=txt[:300])
     from ..arrnf import ANF as _ANF2, walk as _walk2, expect as _expect2, key as _key2
     rgp = _ANF2(ix, f).run()
